@@ -157,3 +157,13 @@ From HC.Proofs Require Import TieTables.
 Theorem C05_source_hop_by_hop : src_hop_by_hop_fixed = hop_by_hop_fixed.
 Proof. exact tie_hop_by_hop_fixed. Qed.
 Print Assumptions C05_source_hop_by_hop.
+From HC.Generated Require Import SrcEffects.
+From HC.Proofs Require Import ProgEq TieEffects.
+
+(* ... and StoreResponse (hop-by-hop fields removed first, the variant key, the entry written before the index, the index
+   entry appended or replaced), serveFromCache and handleStaleWhileRevalidate (qualified no-cache fields removed, Age, status,
+   the background revalidation started with the stored validators) *)
+Theorem C05_source_effects2 :
+  (forall q r k refs a b i, peq (src_store_response q r k refs a b i) (store_response q r k refs a b i)).
+Proof. exact tie_store_response. Qed.
+Print Assumptions C05_source_effects2.
